@@ -63,15 +63,17 @@ class Recorder:
 
 
 def in_repo_frame(tb) -> bool:
-    """Is the innermost frame of this traceback inside the library under test?"""
-    last = None
+    """Did this exception come out of a call into the library under test?  True when, after the last frame that
+    belongs to the harness, the traceback passes through a frame of the library (the exception itself may have been
+    raised deeper, e.g. in the standard library called by the library)."""
+    repo = str(env.REPO / 'wn')
+    harness = str(env.HOME / 'vf')
+    frames = []
     while tb is not None:
-        last = tb
+        frames.append(tb.tb_frame.f_code.co_filename)
         tb = tb.tb_next
-    if last is None:
-        return False
-    fn = last.tb_frame.f_code.co_filename
-    return str(env.REPO / 'wn') in fn
+    last_harness = max((i for i, fn in enumerate(frames) if fn.startswith(harness)), default=-1)
+    return any(fn.startswith(repo) for fn in frames[last_harness + 1:])
 
 
 def main():
